@@ -13,6 +13,8 @@ Case payloads (space separated fields):
   `continue_releases` the timing of a Continue is irrelevant, by `observer_only` so is the program.
 * `K <n> <bpops> <trace> <prog-hex>` — `n` threads, each suspension is answered by `StopThreads`.
   Result `released=<n> end=kill|fin`.
+* `I <bos><boe> <bpops> <script> <trace> <entry-hex> <console-line-hex>,…` — a session of the command line
+  interpreter (`cli/tool/interpret.go`): entry file, then console lines, one thread. Same model function as `D`.
 * `Z <n> <bpops> <prog-hex>` — `n` threads run while `StopThreads` is called over and over: every thread ends
   (`stop_releases_all` for the suspended ones, the others finish). Result `ended=<n>`.
 * `L <mode> <bos><boe> <bpops> <script> <trace> <lib-hex> <main-hex>` — library and main program loaded in
@@ -125,6 +127,10 @@ def runCase (payload : String) : String :=
   match payload.splitOn " " with
   | "D" :: rest => caseD rest
   | "K" :: rest => caseK rest
+  | ["I", flags, bpops, script, trace, _entry, _lines] =>
+    -- command line interpreter session: the same model function on the recorded visit trace (with the
+    -- `f` = RecordThreadFinished events after the entry file and after every console line)
+    caseD ["1", flags, bpops, script, "poll", "0", trace, "-"]
   | ["Z", n, _bpops, _prog] => s!"ended={n}\tnt=1"
   | "L" :: _mode :: flags :: bpops :: script :: trace :: _lib :: [_main] =>
     -- life-cycle cases: the model is the same function of (visit trace while attached, break
@@ -138,10 +144,17 @@ def runCase (payload : String) : String :=
     -- scripts the per-thread traces are validated in mode `vt` only.
     match natOf events, setup "00" bpops, (list body ",").mapM parseEv with
     | some n, some d, some t =>
-      if script = "-" then
-        let k := (runTrace (Run.init d []) t).susp.length
-        s!"same=1 susp={n * k}" ++ (if k > 0 then "\tnt=1" else "")
-      else "same=1 susp=any\tnt=1"
+      match (list script ",").mapM parseAct with
+      | none => "bad-payload"
+      | some sc =>
+        if script = "-" then
+          let k := (runTrace (Run.init d []) t).susp.length
+          s!"same=1 susp={n * k}" ++ (if k > 0 then "\tnt=1" else "")
+        else if _workers = "1" then
+          -- one worker: one thread runs all executions in order, the script is consumed across them
+          let all := (List.replicate n (t ++ [Ev.finished])).flatten
+          s!"same=1 susp={(runTrace (Run.init d sc) all).susp.length}\tnt=1"
+        else "same=1 susp=any\tnt=1"
     | _, _, _ => "bad-payload"
   | _ => "bad-payload"
 
